@@ -440,7 +440,8 @@ func (ev *Evaluator) evalApply(n *jast.Apply, in Value, env *Env) (Value, *Err) 
 	}
 	f1, isF := l.(*Func)
 	if !isF {
-		return ev.Call(f2, []Value{l}, Undef)
+		// v ~> $f is the call $f(v): same context
+		return ev.Call(f2, []Value{l}, in)
 	}
 	return &Func{Kind: "chain", Name: "", Chain: []*Func{f1, f2}}, nil
 }
